@@ -162,3 +162,13 @@ claim(
     "get_interval's documented thin override for requested counts is part of the model; ties at the cut are compared as multisets of probabilities.",
     "Hypothesis model-based histories with append-only log model",
 )
+claim(
+    "C09",
+    "Model-based generation of histories over all five sampler classes and configuration axes (bounds, Gibbs limits, T != 1, HMC default / "
+    "scalar / vector / matrix mass, with and without gradient): saves land before any step, before and after the first adaptation event "
+    "and after many; the reloaded object must report identical lengths, samples, log-probabilities, parameters for several (burn, thin), mode "
+    "and bounds, offer the same read-out / plotting calls (1 in 10 cases, Agg), and - after every numpy Generator reachable from the original "
+    "has been transplanted to the same attribute path of the copy - continue bit-identically, which observes all tuning state behaviourally.",
+    "Generator paths are found by walking the object graph (depth 4); files live in a per-case temporary directory under $TMPDIR.",
+    "Hypothesis model-based histories with round-trip + differential continuation oracle",
+)
